@@ -6,6 +6,9 @@ CHECK = {
         unit("histories", "vault", ["vault/c04_test.go"], "^TestVerif_C04_Histories$",
              quick={"checks": 120, "shards": 1, "cap": 900, "steps": 25},
              thorough={"checks": 600, "shards": 16, "cap": 3000, "steps": 40}),
+        unit("namespaces", "vault", ["vault/c04ns_test.go", "vault/c04_test.go"], "^TestVerif_C04_Namespaces$",
+             quick={"checks": 80, "shards": 1, "cap": 900, "steps": 25},
+             thorough={"checks": 500, "shards": 16, "cap": 3000, "steps": 40}),
         unit("faults", "vault", ["vault/c04_test.go"], "^TestVerif_C04_Faults$",
              quick={"checks": 10, "shards": 1, "cap": 900},
              thorough={"checks": 20, "shards": 16, "cap": 3000}),
